@@ -258,13 +258,21 @@ def eval_receiver(spec):
     a = make(spec)
     before = deep(a)
     kinds = []
+    try:
+        hash(a)  # the receiver has been used as a dictionary key / set member before: no result may inherit anything from that
+    except TypeError:
+        pass
     for vw, vh in VIDEO:
         try:
             if spec[0] == "size":
                 r = a.as_percentage_of(video_width=vw) if vw else a.as_percentage_of(video_height=vh)
+                twin = make(spec).as_percentage_of(video_width=vw) if vw else make(spec).as_percentage_of(video_height=vh)
             else:
                 r = a.as_percentage_of(vw, vh)
+                twin = make(spec).as_percentage_of(vw, vh)
             kinds.append("ok")
+            if r is not None and (not (r == twin) or hash(r) != hash(twin)):
+                v.append((f"C18/result-differs-from-the-result-of-an-identically-built-unhashed-value/as_percentage_of/{spec[0]}", {"spec": spec, "video": [vw, vh]}))
             if r is a and deep(r) != before:
                 v.append((f"C18/receiver-modified/as_percentage_of/{spec[0]}", {"spec": spec}))
         except Exception as e:  # noqa
